@@ -155,7 +155,8 @@ class ClassTable:
 # reifiers
 # ----------------------------------------------------------------------------------------------
 _CALLABLE_TYPES = (types.FunctionType, types.LambdaType, types.MethodType,
-                   types.BuiltinMethodType, types.BuiltinFunctionType)
+                   types.BuiltinMethodType, types.BuiltinFunctionType, types.MethodWrapperType,
+                   types.WrapperDescriptorType, types.MethodDescriptorType, types.ClassMethodDescriptorType)
 
 
 class Unreifiable(Exception):
